@@ -37,6 +37,8 @@ mod h_fmt;
 mod h_layouts;
 mod h_mapper;
 mod h_tables;
+mod h_loop;
+mod h_bytes;
 
 fn main() {
   let args: Vec<String> = std::env::args().collect();
@@ -49,6 +51,9 @@ fn main() {
     "mapper" => h_mapper::run(&opts),
     "replay-mapper" => h_mapper::replay(&opts),
     "gen-tables" => h_tables::run(&opts),
+    "loop" => h_loop::run(&opts),
+    "bytes" => h_bytes::run(&opts),
+    "replay-bytes" => h_bytes::replay(&opts),
     other => {
       eprintln!("unknown suite {}", other);
       2
